@@ -243,7 +243,7 @@ class Prop:
             "selected shape); (b) key grammar: partial keys, every Ellipsis position, bare keys, empty and clipped slices, "
             "steps 1..3, np.int64 integers; (c) histories of 2..5 successive assignments on the same tensor (dense shadow "
             "advanced only by honoured steps), N=1..4, incl. rank-1 / rank>size / all-zero tensors and size-1 modes; "
-            "(d) malformed stream inside histories: out-of-range integer, too many entries, second Ellipsis, value of a wrong "
+            "(d) malformed stream inside histories: out-of-range integer, too many entries, second Ellipsis, negative-step slice, value of a wrong "
             "(non-broadcastable) shape: must raise and leave t unchanged; (e) a sample under default dtype float32 with "
             "values needing > 24 mantissa bits. A case is non-trivial when at least one step was honoured and changed the "
             "dense value; distinct = distinct (format, shape, history of keys and value kinds).")
@@ -449,6 +449,17 @@ class Prop:
                 else:
                     v = bad
                 return {"key": {"top": "tuple", "entries": per}, "vkind": vk, "vsub": vk, "value": v}
+            if kind == "neg-step":
+                # a slice with a negative step selects entries in NumPy but is not in the key grammar of a compressed
+                # tensor: the assignment cannot be honoured and must raise (not be taken for an empty selection)
+                big = [q for q in range(N) if shape[q] >= 2]
+                if not big:
+                    return None
+                p = rng.choice(big); a = rng.randint(1, shape[p] - 1)
+                per[p] = {"k": "slice", "a": rng.choice([None, a, a]), "b": rng.choice([None, rng.randint(0, a - 1)]),
+                          "s": rng.choice([-1, -1, -2])}
+                vk = rng.choice(["int", "float", "np64", "torch0d"])
+                return {"key": {"top": "tuple", "entries": per}, "vkind": vk, "vsub": vk, "value": g_value(rng, [], vk)}
             if kind in ("int-oob-empty", "value-shape-empty"):
                 if N < 2:
                     return None
@@ -464,7 +475,7 @@ class Prop:
                 vk = rng.choice(["np", "torch"])
                 v = g_value(rng, bad, vk)
                 return {"key": {"top": "tuple", "entries": per}, "vkind": vk, "vsub": vk, "value": v, "vbad": "empty-selection"}
-        for kind in ("int-oob", "too-many", "ell2", "value-shape", "nonfinite", "int-oob-empty", "value-shape-empty"):
+        for kind in ("int-oob", "too-many", "ell2", "value-shape", "nonfinite", "int-oob-empty", "value-shape-empty", "neg-step"):
             for _ in range(250 if quick else 1500):
                 N = rng.choice([1, 2, 3, 4]); shape = g_shape(rng, N, hi=4 if N < 4 else 3)
                 tj = g_tensor(rng, shape, g_nou(rng, N))
